@@ -253,7 +253,9 @@ def classify(cfg, harness_cfg, hres):
         return 'undecided', 'no verification verdict for harness (build error, timeout or out of memory)'
     st = hres['status']
     if exp == 'fail':
-        return ('pass', 'canary failed as required') if st == 'FAILED' else ('undecided', 'canary harness did not fail')
+        if st == 'FAILED' and hres['failed_checks']:
+            return 'pass', 'canary failed as required'
+        return 'undecided', 'canary harness did not fail with a failed check (status %s)' % st
     if st == 'SUCCESSFUL':
         need = harness_cfg.get('covers')
         if need is not None and (hres['covers_sat'] is None or hres['covers_sat'] < need):
